@@ -13,7 +13,7 @@ from typing import Callable, Dict, Iterable, List, Optional, Sequence, Set, Tupl
 
 from .model import AnalysisError, Func, walk_local_stmt
 
-CATCH_ALL = {"Exception", "BaseException"}
+CATCH_ALL = {"BaseException"}
 
 # builtins whose call cannot raise for the argument shapes used in the package
 TOTAL_CALLS = {
